@@ -51,6 +51,8 @@ LINES = [
     b'MAIL FROM:<a@b>', b'MAIL FROM:<>', b'mail from:<a@b>',
     b'MAIL FROM:<a@b> SIZE=5', b'MAIL FROM:<a@b> SIZE=99',
     b'MAIL FROM:<a@b> SIZE=abc', b'MAIL FROM:a@b', b'MAIL FROM:<a@b',
+    b'MAIL FROM:<a@b> SIZE=-5', b'MAIL FROM:<a@b> SIZE', b'MAIL FROM:<a@b> SIZE=1_0',
+    b'MAIL FROM:<a@b> SIZE=+5',
     b'MAIL', b'MAIL TO:<a@b>', b'MAIL FROM:<"x>y"@b> BODY=8BITMIME',
     b'RCPT TO:<c@d>', b'rcpt to:<c@d> X=1', b'RCPT TO:c@d', b'RCPT',
     b'RCPT FROM:<c@d>', b'RCPT TO:<c@d',
@@ -246,10 +248,12 @@ def ref_step(st, line, verdict, size_ext):
         if not st['greeted'] or st['mail']:
             return dict(cb=[], codes=['err'], post=post, closes=False)
         import re
-        m = re.search(br'SIZE=(\S+)', arg.upper())
+        m = re.search(br'(?:^|\s)SIZE(?:=(\S*))?(?=\s|$)', arg.upper())
         if m:
-            if not m.group(1).isdigit() or size_ext is None or \
-                    int(m.group(1)) > size_ext:
+            # RFC 1870: size-value = 1*20DIGIT
+            val = m.group(1)
+            if val is None or not re.match(br'^[0-9]{1,20}$', val) or \
+                    size_ext is None or int(val) > size_ext:
                 return dict(cb=[], codes=['err'], post=post, closes=False)
         code = final('MAIL', '250')
         post['mail'] = st['mail'] or (code == '250')
